@@ -2,4 +2,4 @@
 # usage: tools/mut.sh <Cxx> <file-relative-to-ioos_qc> <sed-expression>   (runs the check on a scratch copy)
 d=$(mktemp -d /tmp/mut.XXXX); cp -r /repo/ioos_qc $d/; sed -i -E "$3" $d/ioos_qc/$2
 if diff -q -r /repo/ioos_qc $d/ioos_qc >/dev/null; then echo "NO CHANGE APPLIED"; fi
-VERIF_REPO=$d ./check $1 2>&1 | grep -E "VIOLATION|ANALYSIS|KNOWN|^\[" | cut -c1-260 | head -${4:-4}; rm -rf $d
+VERIF_REPO=$d ./check $1 2>&1 | grep -E "VIOLATION|ANALYSIS|^\[|^  rule" | cut -c1-260 | head -${4:-4}; rm -rf $d
